@@ -790,7 +790,82 @@ fn run_script<F: Fm, A: Atomicity>(ts: &mut Vec<Tendril<F, A>>, script: &str) ->
 /// M = a: Atomic clones of one buffer; s: Atomic subtendrils (offset k, len L-2k) of one buffer;
 ///     n: NonAtomic tendrils moved as SendTendril (each thread gets private copies)
 /// D = main drops its base tendril before (b) or after (a) joining
+/// case `R=<rounds>`: the last two references to one Atomic buffer are dropped by two threads at (as nearly as a spin
+/// rendezvous allows) the same moment, `rounds` times with a sweep of small delays; afterwards no recorded block may
+/// be live and the ledger must have seen no double free: "freed exactly once" under concurrent drops
+fn run_race<F: Fm>(rounds: usize) -> String {
+    use std::sync::atomic::{AtomicUsize, Ordering::SeqCst};
+    use std::sync::{Arc, Mutex};
+    if rounds == 0 || rounds > 2_000_000 {
+        return "bad-case".into();
+    }
+    let data: Vec<u8> = (0..33usize).map(|i| b'a' + (i % 26) as u8).collect();
+    let go = Arc::new(AtomicUsize::new(0));
+    let done = Arc::new(AtomicUsize::new(0));
+    let slots: Vec<Arc<Mutex<Option<Tendril<F, Atomic>>>>> = (0..2).map(|_| Arc::new(Mutex::new(None))).collect();
+    let mut handles = vec![];
+    let mut live = 0usize;
+    let mut anomalies: Vec<String> = vec![];
+    for w in 0..2usize {
+        let (go, done, slot) = (go.clone(), done.clone(), slots[w].clone());
+        handles.push(std::thread::spawn(move || {
+            for r in 1..=rounds {
+                while go.load(SeqCst) < r {
+                    std::hint::spin_loop();
+                }
+                let t = slot.lock().unwrap().take();
+                // delay sweep: worker 0 waits 0..15 spins, worker 1 the complement
+                let d = if w == 0 { r % 16 } else { 15 - r % 16 };
+                for _ in 0..d {
+                    std::hint::spin_loop();
+                }
+                ledger::record_quiet(|| drop(t));
+                done.fetch_add(1, SeqCst);
+            }
+        }));
+    }
+    for r in 1..=rounds {
+        let (a, b) = ledger::record_quiet(|| {
+            let a = Tendril::<F, Atomic>::try_from_byte_slice(&data).unwrap();
+            let b = a.clone();
+            (a, b)
+        });
+        *slots[0].lock().unwrap() = Some(a);
+        *slots[1].lock().unwrap() = Some(b);
+        go.store(r, SeqCst);
+        while done.load(SeqCst) < 2 * r {
+            std::hint::spin_loop();
+        }
+        // the ledger keeps freed blocks in quarantine: settle the books every 1000 rounds (both drops of every round
+        // so far have completed)
+        if r % 1000 == 0 || r == rounds {
+            let _ = ledger::take_events();
+            live += ledger::live();
+            for a in ledger::end_case() {
+                if anomalies.len() < 4 {
+                    anomalies.push(a);
+                }
+            }
+        }
+    }
+    for h in handles {
+        let _ = h.join();
+    }
+    let mut out = format!("race|rounds={}|live={}", rounds, live);
+    for a in anomalies {
+        out.push_str(" !");
+        out.push_str(&a);
+    }
+    out
+}
+
 fn run_threads<F: Fm>(spec: &str) -> String {
+    if let Some(n) = spec.strip_prefix("R=") {
+        return match n.parse::<usize>() {
+            Ok(n) => run_race::<F>(n),
+            Err(_) => "bad-case".into(),
+        };
+    }
     let mut it = spec.split(';');
     let head = it.next().unwrap_or("");
     let scripts: Vec<String> = it.map(|s| s.trim().to_string()).collect();
